@@ -269,12 +269,13 @@ theorem flexible_trigger (st : St) (now : Int) :
     `coreMask`. -/
 theorem model_trace_meets_spec_partial (k : Kind) (ops : List Op) (hw : WF 990 ops) :
     specTraceM coreMask (specInit k) (trace (initSt k) ops) = none := by
-  apply trace_core ops (specInit k) (initSt k) 990 _ _ _ _ hw
+  apply trace_core ops (specInit k) (initSt k) 990 _ _ _ _ _ hw
   · exact ⟨rfl, rfl, fun h => by simp [specInit] at h, fun _ => rfl, rfl, rfl, Pw.nil⟩
   · simp [initSt, idsOf]
   · refine ⟨by simp [initSt], by simp [initSt], ?_⟩
     intro d hd; simp [initSt] at hd
   · intro d hd; simp [initSt] at hd
+  · exact ⟨by simp [initSt], fun d hd => by simp [initSt] at hd⟩
 
 /-! ### Non-vacuity -/
 
